@@ -494,8 +494,11 @@ entity name, entity part and any-membership, each is read back from that very op
 message is marked `object` / `oneof` in `(j5.ext.v1.message).type` and `isOneofWrapper` decides by
 that mark first (`Root.lean`: `writeRoot` / `readRoot`) -/
 def rootFacts : Bool :=
-  ((rootWriterCopies.filter fun c => cSrc c != "").map fun c => (cTarget c, cSrc c)) ==
-    rootSlots.map (fun s => (s.wTarget, s.wSrc)) &&
+  ((rootWriterCopies.filter fun c => cUnit c == "conversionVisitor.visitObjectNode" && cSrc c != "").map
+      fun c => (cTarget c, cSrc c)) ==
+    rootSlots.map (fun s => (s.wTarget, s.wSrc)) ++
+      [("comment([]int32{})", "node.Description"),
+       ("comment([]int32{2,int32(len(message.descriptor.Field))})", "node.Schema.Description")] &&
   rootSlots.all (fun s => readerCopies.any fun c => cTarget c == s.rTarget && cSrc c == s.rSrc) &&
   readerCopies.contains ("findPSMOptions", "EntityObject.Part", "", "part", []) &&
   readerCopies.contains ("Package.buildObjectSchema", "ObjectSchema.Entity", "", "entity", ["entity != nil"]) &&
@@ -518,7 +521,7 @@ def legacyKeysLookupFacts : Bool :=
 
 /-! ## integer bound range check (C12): `checkIntegerBound` = the model's `boundFits` -/
 
-/-- the interval each spelled test admits (`none` = unbounded on that side) -/
+/-- the interval each spelled test allows (`none` = unbounded on that side) -/
 def rangeOfText : String → Option (Option Int × Option Int)
   | "*bound >= math.MinInt32 && *bound <= math.MaxInt32" => some (some (-(2 ^ 31)), some (2 ^ 31 - 1))
   | "*bound >= 0 && *bound <= math.MaxUint32" => some (some 0, some (2 ^ 32 - 1))
@@ -546,5 +549,35 @@ def boundCheckFacts : Bool :=
     match row.bind fun (_, t) => rangeOfText t with
     | some r => boundSamples.all fun v => inRangeOpt r v == boundFits fmt (some v)
     | none => false
+
+/-! ## enums and descriptions (C04): `visitEnumNode`, `enumBuilder.addValue`, comment locations -/
+
+/-- the writer's enum declaration: default prefix `ScreamingSnake(name) ++ "_"` when none is
+declared; the implicit zero value `<prefix>UNSPECIFIED = 0`; an explicit leading UNSPECIFIED takes
+number 0 and the others are numbered from 1 in order (`EnumDecl.values`); option names get the prefix
+unless they have it (`addPrefix`); an option's description is filed under **its number**
+(`[2, number]`, the model's `EnumDecl.comments`; seeded C04-m6 filed it under `len(Value)`), the
+enum's own under `[]`; a property's description is filed under the property's **index**
+(`[2, len(Field)]` taken before the append) in both root visitors -/
+def enumWriterFacts : Bool :=
+  let v := "conversionVisitor.visitEnumNode"
+  let a := "enumBuilder.addValue"
+  let explicitZero := "len(node.Schema.Options) > 0 && isExplicitUnspecified(prefix,node.Schema.Options[0])"
+  rootWriterCopies.contains (v, "var prefix", "node.Schema.Name", "strcase.ToScreamingSnake(node.Schema.Name) + \"_\"",
+    ["node.Schema.Prefix == \"\""]) &&
+  rootWriterCopies.contains (v, "EnumValueDescriptorProto.Name", "", "gl.Ptr(fmt.Sprintf(\"%sUNSPECIFIED\",prefix))", []) &&
+  rootWriterCopies.contains (v, "EnumValueDescriptorProto.Number", "", "gl.Ptr(int32(0))", []) &&
+  rootWriterCopies.contains (v, "addValue(0)", "", "node.Schema.Options[0]", [explicitZero]) &&
+  rootWriterCopies.contains (v, "var optionsToSet", "", "node.Schema.Options[1:]", [explicitZero]) &&
+  rootWriterCopies.contains (v, "addValue(int32(idx + 1))", "", "value", []) &&
+  rootWriterCopies.contains (v, "comment([]int32{})", "node.Schema.Description", "node.Schema.Description",
+    ["node.Schema.Description != \"\""]) &&
+  rootWriterCopies.contains (a, "var name", "schema.Name", "e.prefix + schema.Name", ["!strings.HasPrefix(schema.Name,e.prefix)"]) &&
+  rootWriterCopies.contains (a, "EnumValueDescriptorProto.Name", "", "gl.Ptr(name)", []) &&
+  rootWriterCopies.contains (a, "EnumValueDescriptorProto.Number", "", "gl.Ptr(number)", []) &&
+  (rootWriterCopies.filter fun c => cUnit c == a && cSrc c == "schema.Description") ==
+    [(a, "comment([]int32{2,number})", "schema.Description", "schema.Description", ["schema.Description != \"\""])] &&
+  (rootWriterCopies.filter fun c => cUnit c == "conversionVisitor.visitOneofNode" && cSrc c == "node.Schema.Description").map cTarget ==
+    ["comment([]int32{})", "comment([]int32{2,int32(len(message.descriptor.Field))})"]
 
 end J5V.Rules.Src
